@@ -94,7 +94,7 @@ def graphs(seed):
         for i, (_, _, ci, xi, sup) in enumerate(spec):
             if ci is not None: nodes[i].__cause__ = nodes[ci]
             if xi is not None: nodes[i].__context__ = nodes[xi]
-            nodes[i].__suppress_context__ = bool(sup) or ci is not None
+            nodes[i].__suppress_context__ = False if sup == 'keep' else (bool(sup) or ci is not None)          # 'keep': cause AND an un-suppressed context
         return nodes
     specs = []
     for c in classes:
@@ -108,6 +108,9 @@ def graphs(seed):
             specs.append([(c1, a, 1, None, False), (c2, 'str', 0, None, False)])             # cycle through causes
             specs.append([(c1, a, 0, 0, False)])                                             # self cycle
             specs.append([(c1, a, None, 1, False), (c2, 'str', None, 2, False), ('ValueError', 'none', None, 0, False)])  # context cycle of length 3
+            specs.append([(c1, a, 1, 2, 'keep'), (c2, 'str', 2, None, False), ('KeyError', 'str', 1, None, False)])        # a 2-cycle reachable over two different paths (cause and un-suppressed context)
+            specs.append([(c1, a, 1, 2, 'keep'), (c2, 'str', None, 2, False), ('KeyError', 'str', None, 1, False)])        # the same through context links
+            specs.append([(c1, a, 1, 2, False), (c2, 'set', None, 2, False), ('KeyError', 'badrepr', None, None, False)])  # diamond: shared node under cause and context
     for spec in specs:
         for trip, f in T.items():
             n += 1; pr = []
@@ -127,6 +130,16 @@ def graphs(seed):
                     if o.__context__ is not None and not o.__suppress_context__ and back.__context__ is None and spec[0][3] not in (0, None) and not any(s[3] == 0 for s in spec[1:]): pr.append(f"C19: {trip}: context link lost")
                     if o.__suppress_context__ and o.__cause__ is None and back.__context__ is not None: pr.append(f"C19: {trip}: suppressed context came back")
                     if bool(back.__suppress_context__) != bool(o.__suppress_context__): pr.append(f"C19: {trip}: __suppress_context__ {o.__suppress_context__} came back as {back.__suppress_context__}")
+            if back is not None and trip != 'pickle' and isinstance(back, BaseException):
+                # link topology: the JSON form must keep every cause link and every un-suppressed context link, cutting only links back to an exception ON THE CURRENT PATH
+                def want(e, path):
+                    if e is None or any(e is p_ for p_ in path): return None
+                    return (want(e.__cause__, path + [e]), want(e.__context__, path + [e]) if not e.__suppress_context__ else None)
+                def got(e, depth=0):
+                    if e is None or depth > 12: return None
+                    return (got(e.__cause__, depth + 1), got(e.__context__, depth + 1))
+                w_, g_ = want(nodes[0], []), got(back)
+                if w_ != g_: pr.append(f"C19: {trip}: cause/context links of the loaded error {g_} differ from the original graph cut at the current path {w_}")
             if pr: fails.append({'key': f"{trip}:{spec[0][0]}({spec[0][1]})" + ('' if len(spec) == 1 and spec[0][2] is None else ':links'), 'config': {'trip': trip, 'graph': spec}, 'failed_clauses': pr[:4]})
     return fails, n
 
@@ -183,7 +196,7 @@ def run(sc):
     if 'gate' in parts:
         f, k = gate(); fails += f; n += k
     # group identical clause shapes so that a known finding can be keyed by its specific input
-    return {'reproduced': bool(fails), 'runs': n, 'n_failures': len(fails), 'failures': fails[:60], 'bound': 'graphs: depth <= 3 over 9 classes x 15 argument kinds x link shapes; gate: 25 names x 3 nesting levels x 3 arg tuples'}
+    return {'reproduced': bool(fails), 'runs': n, 'n_failures': len(fails), 'failures': fails[:400], 'bound': 'graphs: depth <= 3 over 9 classes x 15 argument kinds x link shapes; gate: 25 names x 3 nesting levels x 3 arg tuples'}
 
 if __name__ == '__main__':
     sc = json.load(open(sys.argv[1])) if len(sys.argv) > 1 else {}
